@@ -2,5 +2,7 @@
 (* Model constants for validating recorded runs of the sylt binary against SyltDriver (C20). *)
 EXTENDS Trace_Driver
 MCFalse == FALSE
+\* STRICT_STDOUT = "1": an unwritable stdout must turn the exit status non-zero (see SyltDriver!StrictSink)
+MCStrictSink == IOEnv.STRICT_STDOUT = "1"
 ASSUME UniverseWellFormed
 =============================================================================
